@@ -463,7 +463,8 @@ Proof.
       - intros i Hi1 Hi2. destruct (Nat.eq_dec k i) as [<-|Hne'].
         + exact Hck.
         + rewrite Hcoth by exact Hne'. apply Hrange; clear - Hi1 Hi2 H1w0; lia.
-      - intros Hlt. rewrite Hcoth by (clear - Hwk; lia). apply Hnext. exact Hlt. }
+      - intros Hlt. rewrite Hcoth by (clear - Hwk; lia). apply Hnext. exact Hlt.
+      - intros Hw. specialize (Hdone Hw). congruence. }
     split; [exact G7|]. split; [discriminate|]. split.
     { unfold handled. rewrite G1, G2. split; [reflexivity|]. right. rewrite Hck. discriminate. }
     split.
